@@ -121,6 +121,11 @@ func (w *World) StdSetup(name string, caps []uint64) (*ServerNode, *KeyPair, []*
 // Shutdown stops every node and client of the world and releases whatever is
 // still parked, so that the bubble can end.
 func (w *World) Shutdown() {
+	if r := recover(); r != nil {
+		// A violation (or a harness panic) is on its way out: the worker
+		// reports it and exits, no clean-up of the possibly wedged world.
+		panic(r)
+	}
 	w.Phase = "shutdown"
 	w.OnPark = nil
 	for _, name := range sortedKeys(w.Clients) {
